@@ -54,6 +54,7 @@ func main() {
 		}
 		h.corpus()
 		h.random(c.N)
+		h.randomBurst(c.N / 2)
 	}
 	if *mode == "all" || *mode == "second" {
 		n := 6
@@ -170,8 +171,13 @@ func (h *H) runGen(r *Rig, p *Peer, ctr0 uint32, tag string, next func(i int, o 
 	caseSoFar := func() string {
 		return fmt.Sprintf("Q %s %d | %s | %s", r.Cfg.M(), ctr0, strings.Join(frames, " ; "), strings.Join(obs, " ; "))
 	}
+	// what = class + kind of deviation (stable); the bytes go into the case
 	fail := func(class, detail string) {
-		c.Fail(fmt.Sprintf("E37 table violated: class=%s: %s", class, detail), caseSoFar())
+		kind, rest := detail, ""
+		if i := strings.Index(detail, " ## "); i >= 0 {
+			kind, rest = detail[:i], detail[i:]
+		}
+		c.Fail(fmt.Sprintf("E37 table violated: class=%s: %s", class, kind), caseSoFar()+rest)
 	}
 	emit := func(ended bool) {
 		line := caseSoFar()
@@ -203,7 +209,7 @@ func (h *H) runGen(r *Rig, p *Peer, ctr0 uint32, tag string, next func(i int, o 
 	st := r.Conn.State()
 	obs = append(obs, obsString(selOf(st), "K", startOuts, r.TakeDelivered()))
 	if !framesEqual(startOuts, want) {
-		fail("connect", fmt.Sprintf("on connect the library sent %s, prescribed %s", hexes(startOuts), hexes(want)))
+		fail("connect", fmt.Sprintf("frames sent on connect differ ## sent %s, prescribed %s", hexes(startOuts), hexes(want)))
 	}
 	if st != hsms.NotSelectedState {
 		fail("connect", "State() after connect is not NotSelected")
@@ -212,7 +218,7 @@ func (h *H) runGen(r *Rig, p *Peer, ctr0 uint32, tag string, next func(i int, o 
 	frames = append(frames, bar0.M())
 	obs = append(obs, obsString(selOf(st), "K", []Frame{brsp}, nil))
 	if b0 := o.Expect(bar0); !framesEqual([]Frame{brsp}, b0.Replies) {
-		fail(b0.Class, fmt.Sprintf("reply %s, prescribed %s", hexes([]Frame{brsp}), hexes(b0.Replies)))
+		fail(b0.Class, fmt.Sprintf("reply differs ## reply %s, prescribed %s", hexes([]Frame{brsp}), hexes(b0.Replies)))
 	}
 
 	reportReplay := func(nf, no int) {
@@ -245,7 +251,7 @@ func (h *H) runGen(r *Rig, p *Peer, ctr0 uint32, tag string, next func(i int, o 
 			}
 			obs = append(obs, obsString("x", "D", outs, deliv))
 			if len(outs) != 0 {
-				fail(exp.Class, "frames were sent back before the link ended: "+hexes(outs))
+				fail(exp.Class, "frames were sent back before the link ended ## "+hexes(outs))
 			}
 			if len(deliv) != 0 {
 				fail(exp.Class, "handler invoked")
@@ -277,20 +283,20 @@ func (h *H) runGen(r *Rig, p *Peer, ctr0 uint32, tag string, next func(i int, o 
 		}
 		obs = append(obs, obsString(selOf(st), "K", outs, deliv))
 		if !replyOK {
-			fail(exp.Class, fmt.Sprintf("reply %s, prescribed %s", hexes(outs), hexes(exp.Replies)))
+			fail(exp.Class, fmt.Sprintf("reply differs ## reply %s, prescribed %s", hexes(outs), hexes(exp.Replies)))
 		}
 		if !delivOK {
-			fail(exp.Class, fmt.Sprintf("handler saw %s", hexes(deliv)))
+			fail(exp.Class, fmt.Sprintf("handler invocations differ ## handler saw %s", hexes(deliv)))
 		}
 		if !stateOK {
-			fail(exp.Class, fmt.Sprintf("State()=%s but acknowledged selected=%s", selOf(st), b01(o.Sel)))
+			fail(exp.Class, fmt.Sprintf("State() differs from the acknowledged selected state ## State()=%s acknowledged=%s", selOf(st), b01(o.Sel)))
 		}
 		// the barrier is a frame of the sequence too
 		frames = append(frames, bar.M())
 		obs = append(obs, obsString(selOf(st), "K", []Frame{rsp}, nil))
 		bexp := o.Expect(bar)
 		if !framesEqual([]Frame{rsp}, bexp.Replies) {
-			fail(bexp.Class, fmt.Sprintf("reply %s, prescribed %s", hexes([]Frame{rsp}), hexes(bexp.Replies)))
+			fail(bexp.Class, fmt.Sprintf("reply differs ## reply %s, prescribed %s", hexes([]Frame{rsp}), hexes(bexp.Replies)))
 		}
 		return true, exp
 	}
@@ -339,7 +345,7 @@ func (h *H) runGen(r *Rig, p *Peer, ctr0 uint32, tag string, next func(i int, o 
 				}
 				obs = append(obs, obsString(selOf(st), "K", outs, r.TakeDelivered()))
 				if !framesEqual(outs, pexp.Replies) {
-					fail(pexp.Class, fmt.Sprintf("reply %s, prescribed %s", hexes(outs), hexes(pexp.Replies)))
+					fail(pexp.Class, fmt.Sprintf("reply differs ## reply %s, prescribed %s", hexes(outs), hexes(pexp.Replies)))
 				}
 				frames = append(frames, bar.M())
 				obs = append(obs, obsString(selOf(st), "K", []Frame{rsp}, nil))
@@ -434,7 +440,13 @@ func replayed(pre, post *Oracle, f Frame, outs, deliv []Frame, down bool, st hsm
 	if aexp.LinkEnds || !framesEqual(outs, aexp.Replies) || selOf(st) != b01(alt.Sel) {
 		return false
 	}
-	return aexp.Deliver == (len(deliv) == 1) && len(deliv) <= 1
+	if aexp.Deliver == (len(deliv) == 1) && len(deliv) <= 1 {
+		// the Selected entity may have used fresh system bytes (S9F1): the counter the next TCP
+		// generation starts from is the library's, not the one the table predicted
+		post.LastSys = alt.LastSys
+		return true
+	}
+	return false
 }
 
 const replayWhat = "selected state came back after Deselect.rsp(0) with no Select in between: the library answers as a Selected entity again"
